@@ -144,6 +144,10 @@ func newSession() *session {
 }
 
 func (s *session) cleanup() {
+	if os.Getenv("VP_KEEP_SCRATCH") != "" { // development only
+		fmt.Println("scratch kept at", s.scratch)
+		return
+	}
 	// clear immutable bits possibly left by fault injection, then remove
 	_, _ = run("/", nil, "chattr", "-R", "-i", s.scratch)
 	_ = exec.Command("chmod", "-R", "u+rwx", s.scratch).Run()
